@@ -1,6 +1,7 @@
 package main
 
 import (
+	"go/token"
 	"go/types"
 
 	"golang.org/x/tools/go/ssa"
@@ -124,7 +125,7 @@ func (m *modOracle) scan(f *ssa.Function) {
 					case *ssa.FieldAddr:
 					case *ssa.IndexAddr:
 					case *ssa.Store:
-						if r.Val == ssa.Value(t) {
+						if r.Val == ssa.Value(t) && !storedForReadingOnly(r) {
 							m.addrTaken[v] = true
 						}
 					case *ssa.DebugRef:
@@ -336,4 +337,106 @@ func pathFields(base ssa.Value, path string) []*types.Var {
 		i = j
 	}
 	return out
+}
+
+// storedForReadingOnly: the pointer is put into an element of a local array / slice literal (a table of the record's
+// sections, say) that nothing but this function sees, and every pointer taken out of that table again is only read
+// through. Such a pointer is never written through and never leaves the function: the field is not "address taken".
+func storedForReadingOnly(st *ssa.Store) bool {
+	ia, ok := st.Addr.(*ssa.IndexAddr)
+	if !ok {
+		return false
+	}
+	al, ok := ia.X.(*ssa.Alloc)
+	if !ok {
+		return false
+	}
+	return containerReadOnly(al, 0)
+}
+
+func containerReadOnly(v ssa.Value, depth int) bool {
+	if depth > 6 || v.Referrers() == nil {
+		return false
+	}
+	for _, ref := range *v.Referrers() {
+		switch r := ref.(type) {
+		case *ssa.DebugRef:
+		case *ssa.IndexAddr:
+			if r.X != v {
+				return false
+			}
+			for _, rr := range *r.Referrers() {
+				switch e := rr.(type) {
+				case *ssa.DebugRef:
+				case *ssa.Store:
+					if e.Addr != ssa.Value(r) {
+						return false
+					}
+				case *ssa.UnOp:
+					if e.Op != token.MUL || !pointerOnlyRead(e, depth+1) {
+						return false
+					}
+				default:
+					return false
+				}
+			}
+		case *ssa.Slice:
+			if r.X != v || !containerReadOnly(r, depth+1) {
+				return false
+			}
+		case *ssa.Call:
+			if n := calleeNameSSA(&r.Call); n != "builtin.len" && n != "builtin.cap" {
+				return false
+			}
+		case *ssa.Range:
+		case *ssa.UnOp:
+			// the whole array loaded (ranging over an array literal): its elements, taken out by index
+			if r.Op != token.MUL || r.Referrers() == nil {
+				return false
+			}
+			for _, rr := range *r.Referrers() {
+				switch e := rr.(type) {
+				case *ssa.DebugRef:
+				case *ssa.Index:
+					if !pointerOnlyRead(e, depth+1) {
+						return false
+					}
+				default:
+					return false
+				}
+			}
+		default:
+			return false
+		}
+	}
+	return true
+}
+
+func pointerOnlyRead(p ssa.Value, depth int) bool {
+	if _, isPtr := p.Type().Underlying().(*types.Pointer); !isPtr {
+		return true
+	}
+	if depth > 6 || p.Referrers() == nil {
+		return false
+	}
+	for _, ref := range *p.Referrers() {
+		switch r := ref.(type) {
+		case *ssa.DebugRef:
+		case *ssa.UnOp:
+			if r.Op != token.MUL {
+				return false
+			}
+		case *ssa.BinOp:
+			if r.Op != token.EQL && r.Op != token.NEQ {
+				return false
+			}
+		case *ssa.Phi:
+			if !pointerOnlyRead(r, depth+1) {
+				return false
+			}
+		default:
+			return false
+		}
+	}
+	return true
 }
